@@ -5,6 +5,7 @@ import random
 import sys
 
 from .core import VERIF
+from . import core
 from .driver import WitnessResult
 from . import replay
 
@@ -606,6 +607,68 @@ PROPS['C12'] = dict(
     trusted=['spec/device_tab.py'],
     bounded=['capacity witnesses: quick: 17 devices, thorough: all 54, x 3 memories x {at capacity, one above} through build_str'],
 )
+def witnesses_c13(tier, seed):
+    """every device of the table x one source line per ISA row (valid operands): rejected exactly when the row's own flags (re-read from
+    src/device.rs: they are the reference of the property) remove the instruction or form; otherwise the bytes of the build without
+    .device -- except lds/sts on reduced cores (one-word form).  Plus label positions after one-word lds/sts."""
+    import isa, device_feat, device_tab
+    rows = device_tab.parse_table(core.REPO)
+    rnd = random.Random(seed or 19)
+    lines = []
+    for r in isa.ROWS:
+        if r['core'] == 'avr8l':
+            continue
+        txt, uses_x, uses_y = [], False, False
+        for kind in r['ops']:
+            if kind in isa.IDX:
+                uses_x |= kind[0] == 'X' or kind.endswith('X')
+                uses_y |= kind[0] == 'Y' or kind.endswith('Y')
+                txt.append('%s+1' % kind[0] if isa.IDX[kind][2] else kind)
+            elif kind in ('REL7', 'REL12'):
+                txt.append('PC')
+            else:
+                cls, _, legal, _ = isa.KINDS[kind]
+                cand = range(32) if cls == 'reg' else [0x40, 0x45, 1, 2, 3, 16, 24, 26, 0]
+                v = [x for x in cand if legal(x)][0]
+                txt.append(('r%d' % v) if cls == 'reg' else str(v))
+        lines.append((r['mn'], '%s %s' % (r['mn'], ', '.join(txt)), len(r['ops']), uses_x, uses_y))
+    devs = sorted(rows)
+    if tier == 'quick':
+        keep = set(rnd.sample(devs, 12)) | {d for d in devs if any(f in rows[d]['opts'] for f in ('Tiny1x', 'Avr8l', 'NoXreg', 'NoElpmX', 'NoElpm'))}
+        devs = [d for d in devs if d in keep]
+    jobs = ['build\n %s\n' % l[1] for l in lines]
+    idx = {}
+    for d in devs:
+        for i, l in enumerate(lines):
+            idx[(d, i)] = len(jobs)
+            jobs.append('build\n.device %s\n %s\n' % (d, l[1]))
+    extra = [('avr8l_label_after_sts', '.device ATtiny20\n sts 0x40, r16\ndone: rjmp done\n', '00a9ffcf'),
+             ('avr8l_label_after_lds', '.device ATtiny20\n lds r16, 0x40\ndone: rjmp done\n', '00a1ffcf'),
+             ('avr8l_branch_over_lds_sts', '.device ATtiny20\n breq done\n lds r17, 0x41\n sts 0x42, r17\ndone: nop\n', '11f011a112a90000')]
+    base_extra = len(jobs)
+    jobs += ['build\n' + e[1] for e in extra]
+    res = replay.run_jobs(jobs)
+    out = []
+    for d in devs:
+        opts = rows[d]['opts']
+        for i, (mn, text, n, ux, uy) in enumerate(lines):
+            r0, r = res[i], res[idx[(d, i)]]
+            allowed = device_feat.allowed_py(opts, mn, n, ux, uy)
+            if not allowed:
+                ok, want = r.get('status') == 'err', 'the build fails: %s lacks this instruction (flags %s)' % (d, ' '.join(opts))
+            elif 'Avr8l' in opts and mn in ('lds', 'sts'):
+                ok, want = r.get('status') in ('ok', 'err') and (r.get('status') != 'ok' or len(r['code']) == 4), 'one-word form (or an address outside its range)'
+            else:
+                ok, want = r.get('status') == r0.get('status') and r.get('code') == r0.get('code'), 'same machine code as without .device: %s' % r0.get('code')
+            if not ok or (i % 29 == 0):
+                out.append(WitnessResult('gate:%s:%s' % (d, text), jobs[idx[(d, i)]], ok, dict((k, r.get(k)) for k in ('status', 'code', 'err')), want, 'dev/'))
+    for k, (name, src, want) in enumerate(extra):
+        r = res[base_extra + k]
+        out.append(WitnessResult(name, 'build\n' + src, r.get('status') == 'ok' and r.get('code') == want, dict((k2, r.get(k2)) for k2 in ('status', 'code', 'err')), want, 'pass1/'))
+    out.append(WitnessResult('gate:summary', '%d devices x %d instruction lines' % (len(devs), len(lines)), True, 'see the individual entries', 'all as the row flags say'))
+    return out
+
+
 PROPS['C13'] = dict(
     level_text='Proof: (Kani/CBMC, complete) Device::check_operation && check_operands, extracted verbatim, equals the flag oracle for all '
                '2^16 flag sets (a superset of the 54 table rows) x all 114 mnemonics x all operand forms; (Verus) pass 2 consults the gate '
@@ -613,10 +676,18 @@ PROPS['C13'] = dict(
                'Avr8l flag (its slice context exposes nothing else), so every admitted instruction encodes as with no device.',
     level_note='the flag sets of the table rows themselves are the reference of the property; NoEspm removes nothing this assembler knows',
     technique='Kani contract harness on the extracted gate against a generated flag oracle + Verus call-site obligation in pass 2',
-    verus=['pass2', 'encv'],
+    verus=['pass2', 'encv', 'pass1', 'link'],
+    depends_on=['C02'],      # "the same machine code" for branches and label references presupposes the layout clauses: on a reduced core the
+                             # one-word lds/sts must also be COUNTED as one word (ENCV #words / #length, PASS1 / PASS2 / LINK)
     kani=[dict(slice='dev', harnesses=lambda tier: [h for h in _dev_harnesses(tier) if h[0] == 'dev_gate'])],
+    witnesses=witnesses_c13,
     functions=['Device::check_operation', 'Device::check_operands', 'Device::allow', 'Device::is_avr8l', 'pass_2_internal (gate call)', 'instruction::process'],
     explanation='spec/device_feat.py: flag -> removed instructions/forms, from the property text.',
+    bounded=['every device of the table (quick: 12 sampled + every row with a rare flag) x one line per ISA row through the real pipeline: '
+             'rejected exactly when the flags of the row (re-read from src/device.rs) remove it, otherwise the bytes of the build without '
+             '.device; three programs with labels after the one-word lds/sts of ATtiny20'],
+    not_decided=['whether the flag set of a table row is the right one for the real part: the property takes the table as its reference, '
+                 'so an edited row is not a violation of it (seeded change C13_4 is of this kind and is deliberately not reported)'],
     assumptions=['R11: BTreeSet<DisabledOptions> modelled as a 16-bit mask keyed by flag name',
                  'independence of process() from all flags but Avr8l is by construction of the slice context (a new device access in process() '
                  'makes the slice fail to compile -> UNDECIDED, not a silent pass)'] + ENC_ASSUME[:1],
@@ -744,6 +815,19 @@ def witnesses_c15(tier, seed):
             # keep the .if/.endif pair of the base balanced around the insertion
             jobs.append('build\n' + '\n'.join(lines) + '\n')
             meta.append((name, pos + 1))
+    # the same kinds of fault on a line that stands in a data or EEPROM segment, and inside a macro body / conditional
+    seg_faults = [('undefined_in_set_in_dseg', 'nop\n.dseg\nbuf: .byte 2\n.set w = nosuch\n.cseg\nnop\n', 4),
+                  ('undef_unknown_in_dseg', 'nop\n.dseg\n.undef nothing\n.cseg\n', 3),
+                  ('def_of_non_register_in_dseg', '.dseg\n.byte 1\n.def t = nosuch\n', 3),
+                  ('undefined_in_set_in_eseg', '.eseg\n.db 1\n.set w = nosuch + 1\n', 3),
+                  ('instruction_in_dseg', 'nop\n.dseg\n nop\n', 3),
+                  ('db_in_dseg', '.dseg\n.byte 1\n.db 1\n', 3),
+                  ('undefined_in_eeprom_data', '.eseg\n.db 1\n.dw nosuch\n', 3),
+                  ('duplicate_label_in_dseg', 'a: nop\n.dseg\nb: .byte 1\na: .byte 1\n', 4),
+                  ('range_in_taken_else', 'nop\n.if 0\n nop\n.else\n ldi r16, 999\n.endif\n', 5)]
+    for name, text, line_no in seg_faults:
+        jobs.append('build\n' + text)
+        meta.append((name, line_no))
     msgs_only = '.message "alpha"\n.if 1\n.warning "beta"\n.endif\n.equ x = 1\n'
     jobs.append('build\n' + msgs_only)
     msgs = 'nop\n.message "one"\n.if 0\n.message "hidden"\n.error "hidden too"\n.else\n.warning "two"\n.endif\nnop\n.message "three"\n'
